@@ -94,11 +94,21 @@ func SessionC18(t *tape.Tape) *core.RunResult {
 		maxDepth = 3
 	}
 	depth := t.Range(1, maxDepth)
-	predecessor := t.Chance(1, 2) // an earlier, completed analysis of another position on the same engine
+	predecessor := t.Chance(2, 3) // an earlier, completed analysis on the same engine
 	var g0 *rules.Game
+	predDepth := 1
 	if predecessor {
-		g0, _ = rules.NewGame(startFEN)
-		randomLine(t, g0, t.Choose(6), 0)
+		if t.Chance(1, 2) {
+			// of another position
+			g0, _ = rules.NewGame(startFEN)
+			randomLine(t, g0, t.Choose(6), 0)
+		} else {
+			// of the very same position, but set up from its FEN: same placement (and hash), different history
+			cur := g.Pos()
+			g0 = &rules.Game{Start: cur, StartHalf: g.Half(), StartFull: g.Full()}
+			predDepth = depth
+			res.Probe("predecessor-same-position-other-history")
+		}
 	}
 	seed0 := int64(t.Choose(1 << 16))
 	res.Tracef("wiring=%s noise=%d depth=%d predecessor=%v game=%q", w, noise, depth, predecessor, g.FEN())
@@ -192,14 +202,8 @@ func SessionC18(t *tape.Tape) *core.RunResult {
 
 	// Phase 1: the solo run (same wiring, its own Zobrist seed, otherwise idle bubble)
 	solo := &engSim{name: "solo", b: Build(ctx, k, w, opts, seed0, 1)}
-	if predecessor {
-		if !analyze(solo, g0, 1) {
-			return res
-		}
-		if !runAll([]*engSim{solo}, false) {
-			return finishBudget()
-		}
-	}
+	// (the solo run has no predecessor: "searches run before it do not change it"; every analysis starts
+	// with Engine.Reset, which re-seeds the noise generator, so the stream is comparable with noise on too)
 	if !analyze(solo, g, depth) {
 		return res
 	}
@@ -229,7 +233,7 @@ func SessionC18(t *tape.Tape) *core.RunResult {
 	}
 	if predecessor {
 		for _, e := range es {
-			if !analyze(e, g0, 1) {
+			if !analyze(e, g0, predDepth) {
 				return res
 			}
 		}
